@@ -82,18 +82,25 @@ class NDNApp:
         if typ == LpTypeNumber.LP_PACKET:
             try:
                 nack_reason, fragment = parse_lp_packet(data, with_tl=True)
-            except (DecodeError, TypeError, ValueError, struct.error):
+            except (DecodeError, TypeError, ValueError, IndexError, struct.error):
                 self.logger.warning('Unable to decode received packet')
                 return
             data = fragment
-            typ, _ = parse_tl_num(data)
+            if not data:
+                # IDLE packet: an LpPacket without a fragment carries nothing for the application
+                return
+            try:
+                typ, _ = parse_tl_num(data)
+            except (IndexError, struct.error):
+                self.logger.warning('Unable to decode the fragment of LpPacket')
+                return
         else:
             nack_reason = None
 
         if nack_reason is not None:
             try:
                 name, _, _, _ = parse_interest(data, with_tl=True)
-            except (DecodeError, TypeError, ValueError, struct.error):
+            except (DecodeError, TypeError, ValueError, IndexError, struct.error):
                 self.logger.warning('Unable to decode the fragment of LpPacket')
                 return
             if self.logger.isEnabledFor(logging.DEBUG):
@@ -103,7 +110,7 @@ class NDNApp:
             if typ == TypeNumber.INTEREST:
                 try:
                     name, param, app_param, sig = parse_interest(data, with_tl=True)
-                except (DecodeError, TypeError, ValueError, struct.error):
+                except (DecodeError, TypeError, ValueError, IndexError, struct.error):
                     self.logger.warning('Unable to decode received packet')
                     return
                 if self.logger.isEnabledFor(logging.DEBUG):
@@ -112,7 +119,7 @@ class NDNApp:
             elif typ == TypeNumber.DATA:
                 try:
                     name, meta_info, content, sig = parse_data(data, with_tl=True)
-                except (DecodeError, TypeError, ValueError, struct.error):
+                except (DecodeError, TypeError, ValueError, IndexError, struct.error):
                     self.logger.warning('Unable to decode received packet')
                     return
                 if self.logger.isEnabledFor(logging.DEBUG):
